@@ -210,13 +210,15 @@ func (st *State) entCall(fr *Frame, in ssa.CallInstruction, callee *ssa.Function
 		}
 		return false
 	case path == e.modPath+"/ent":
-		// hand-written addons are ordinary code
+		recv := callee.Signature.Recv()
+		// hand-written addons are ordinary code (except the transaction runners, below)
 		if pos := callee.Pos(); pos.IsValid() && e.fset != nil {
 			if strings.HasSuffix(e.fset.Position(pos).Filename, "-addons.go") {
-				return false
+				if !(recv != nil && typeKey(recv.Type()) == "*"+e.modPath+"/ent.Client" && strings.HasPrefix(name, "Do")) {
+					return false
+				}
 			}
 		}
-		recv := callee.Signature.Recv()
 		if recv == nil {
 			switch name {
 			case "Asc", "Desc":
@@ -249,6 +251,33 @@ func (st *State) entCall(fr *Frame, in ssa.CallInstruction, callee *ssa.Function
 			}
 			st.entMethod(fr, in, callee, t, m[2], name, args, k)
 			return true
+		}
+		// transaction runners (hand-written in client-addons.go): idiom of DESIGN 2.3, used at call sites in
+		// other units; DoTx itself is verified separately against its own contract
+		if rt == "*"+e.modPath+"/ent.Client" && (name == "DoTx" || name == "DoCtxTx" || name == "DoCtxTxRetry") && st.u.fn != callee && !strings.HasPrefix(st.u.name, "ent.") {
+			st.txRun(fr, in, callee, name, args, k)
+			return true
+		}
+		// mutation introspection: number of set / cleared / added fields of the builder the mutation belongs to
+		if strings.HasSuffix(rt, "Mutation") && strings.HasPrefix(rt, "*"+e.modPath+"/ent.") {
+			if h, ok := args[0].(*EntH); ok && (name == "Fields" || name == "ClearedFields" || name == "AddedFields") {
+				b := st.builder(h)
+				n := 0
+				for _, s := range b.Sets {
+					switch {
+					case name == "Fields" && (s.Op == "set" || s.Op == "setif"):
+						n++
+					case name == "ClearedFields" && s.Op == "clear":
+						n++
+					case name == "AddedFields" && s.Op == "add":
+						n++
+					}
+				}
+				sv := st.freshVal("mutfields", callee.Signature.Results().At(0).Type()).(*SliceV)
+				st.assume(Eq(sv.Len, IntLit(int64(n))))
+				k(st, sv)
+				return true
+			}
 		}
 		// methods on entities and on Tx
 		if rt == "*"+e.modPath+"/ent.Tx" {
@@ -1263,4 +1292,108 @@ func (st *State) analyzeCommitHook(fr *Frame, in ssa.CallInstruction, hook *Func
 	s := st.qv("s")
 	st.assume(Forall([]*Term{s}, Eq(Select(nw, s), Or(Select(cur, s), Select(after, s))), Select(nw, s)))
 	st.heap.vers[wk] = nw
+}
+
+// ---------------------------------------------------------------------------
+// Transaction runners: client.DoTx(ctx, opts, f) / DoCtxTx / DoCtxTxRetry
+//
+// "runs f one or more times, each in a fresh transaction; returns nil only if the last run of f returned
+// nil and its commit succeeded". At a call site the callback is executed once in place (a function literal
+// is inlined, an action's Execute is used through its contract) on a fresh transaction:
+//   * f returns nil: the runner returns nil, or (commit failure) an error with the tables rolled back;
+//   * f returns an error: the runner returns an error and the tables are as before the call.
+func (st *State) txRun(fr *Frame, in ssa.CallInstruction, callee *ssa.Function, name string, args []SVal, k func(st *State, res SVal)) {
+	var fv *FuncV
+	for _, a := range args {
+		if f, ok := a.(*FuncV); ok && f.Fn != nil {
+			fv = f
+			break
+		}
+	}
+	if fv == nil {
+		st.unsupported("transaction runner called with an unknown callback")
+	}
+	st.e.note(st.u.name, "intrinsic", "ent.Client."+name+" (transaction idiom)")
+	tables := map[string]*Term{}
+	for key, v := range st.heap.vers {
+		if strings.HasPrefix(key, "T|") {
+			tables[key] = v
+		}
+	}
+	logLen := len(st.havocLog)
+	rollback := func(st2 *State) {
+		// the database state is the one before the transaction
+		for key := range st2.heap.vers {
+			if strings.HasPrefix(key, "T|") {
+				if old, ok := tables[key]; ok {
+					st2.heap.vers[key] = old
+				} else {
+					delete(st2.heap.vers, key)
+				}
+			}
+		}
+		_ = logLen
+	}
+	tx := st.allocRef()
+	ctx := args[1]
+	// arguments of the callback
+	var cbArgs []SVal
+	target := fv.Fn
+	bindings := fv.Bindings
+	nparams := len(target.Params)
+	switch {
+	case nparams == 1:
+		cbArgs = []SVal{tx}
+	case nparams == 2:
+		cbArgs = []SVal{ctx, tx}
+	case nparams == 3: // bound receiver passed explicitly
+		cbArgs = []SVal{fv.Bound, ctx, tx}
+	default:
+		st.unsupported("transaction callback with %d parameters", nparams)
+	}
+	done := func(st2 *State, res SVal) {
+		e := st2.scalar(res)
+		// the callback failed: rolled back, its error (possibly wrapped) is returned
+		if !isLitZero(e) {
+			st3 := st2.clone()
+			st3.assume(Neq(e, IntLit(0)))
+			if st3.foldKnown(Neq(e, IntLit(0))) != TFalse {
+				rollback(st3)
+				out := st3.newErr("txerr")
+				st3.assume(Eq(st3.errIs("notfound", out), st3.errIs("notfound", e)))
+				st3.tr("tx-rolled-back")
+				k(st3, out)
+			}
+		}
+		if st2.nonzero[e.S] {
+			return
+		}
+		st2.assume(Eq(e, IntLit(0)))
+		// commit may fail
+		if st2.u.c.Options["storage"] != "reliable" {
+			st4 := st2.clone()
+			rollback(st4)
+			ce := st4.newErr("commiterr")
+			st4.ghostSet("dbfailed", nil, TTrue)
+			st4.tr("commit-failed")
+			k(st4, ce)
+		}
+		st2.tr("tx-committed")
+		k(st2, IntLit(0))
+	}
+	// a bound method value (action.Execute): unwrap to the method and its receiver
+	if target.Synthetic != "" && strings.HasSuffix(target.Name(), "$bound") {
+		if obj, ok := target.Object().(*types.Func); ok {
+			if m := st.e.prog.FuncValue(obj); m != nil {
+				target = m
+				cbArgs = append([]SVal{bindings[0]}, cbArgs...)
+				bindings = nil
+			}
+		}
+	}
+	if ct, ok := st.e.specs.Contracts[fnKey(target)]; ok && !ct.Inline {
+		st.applyContract(fr, in, ct, target, cbArgs, target.Signature.Results(), done)
+		return
+	}
+	st.inline(fr, in, target, bindings, cbArgs, done)
 }
